@@ -11,7 +11,11 @@ class RefError(Exception):
     """a *reported* error of the documented semantics. kind: short class name; info: what the statement prescribes about it"""
     def __init__(self, kind, loc=None, **info):
         Exception.__init__(self, kind); self.kind = kind; self.loc = loc; self.info = info; self.stack = []
-class Unspecified(Exception): pass
+class Unspecified(Exception):
+    """atomic_out: when set, the construct that is not specified is a single print -- whatever it does, a failure of it must leave
+    stdout equal to the output of the prints completed before (C17)"""
+    def __init__(self, msg, atomic_out=None):
+        Exception.__init__(self, msg); self.atomic_out = atomic_out
 class Split(Exception):
     def __init__(self, cond): self.cond = cond
 class Ctl(Exception):
@@ -349,7 +353,17 @@ class Interp:
             if slot is None: raise RefError('undefined', e.loc, name=e.name)
             return slot[0]
         if k == 'bin':
-            l = self.eval(e.lhs, env); r = self.eval(e.rhs, env)
+            l = self.eval(e.lhs, env)
+            if e.op in ('And', 'Or') and l[0][0] == 'bool' and not is_sym(l[0][1]) and l[0][1] == (e.op == 'Or'):
+                # the left operand decides: whether the right operand is still evaluated is not stated -- only a right operand
+                # whose evaluation has no effect and cannot fail keeps the case comparable
+                if has_call(e.rhs): raise Unspecified('right operand of a decided && / || contains a call')
+                n0 = len(self.out)
+                try: r = self.eval(e.rhs, env)
+                except RefError: raise Unspecified('right operand of a decided && / || fails')
+                if len(self.out) != n0: raise Unspecified('right operand of a decided && / || has an effect')
+                return sv(self.binop(e.op, l[0], r[0], e.op_loc))
+            r = self.eval(e.rhs, env)
             return sv(self.binop(e.op, l[0], r[0], e.op_loc))
         if k == 'range':
             a = self.eval(e.start, env)[0]; b = self.eval(e.end, env)[0]
@@ -461,6 +475,7 @@ class Interp:
         return tuple(out)
 
     def call(self, e, env):
+        if has_call(e.func) and any(has_call(a) for a, _ in e.args): self.silent.append('callee and arguments both contain calls'); raise Unspecified('relative order of evaluating a callee expression with effects and its arguments')
         args = self.eval_items(e.args, env)
         f = self.eval(e.func, env)
         fv, src = f
@@ -500,7 +515,10 @@ class Interp:
         if name == 'print':
             if src is not None: raise Unspecified('`print` reached through an object')
             if len(args) != 1: raise RefError('builtin-arity', e.loc)
-            self.out.extend(self.render(args[0][0], 0)); self.out.append(b'\n')
+            before = list(self.out)
+            try: rendered = self.render(args[0][0], 0)
+            except Unspecified as u: raise Unspecified(str(u), atomic_out=before)
+            self.out.extend(rendered); self.out.append(b'\n')
             return sv(NULL)
         if name in ('->type', '->len'):
             if src is None: raise Unspecified('type function without receiver')
@@ -674,6 +692,13 @@ class Interp:
         # nested containers are already rendered at their depth; a *string* element containing newlines is indented as text
         return pieces
 
+def has_call(n):
+    if isinstance(n, N):
+        if n.kind in ('call', 'fn'): return n.kind == 'call' or False
+        return any(has_call(v) for k, v in n.__dict__.items() if k not in ('kind', 'loc'))
+    if isinstance(n, (list, tuple)): return any(has_call(x) for x in n)
+    return False
+
 def contains_fn(v, seen=None):
     seen = seen if seen is not None else set()
     if v[0] in ('fn', 'builtin'): return True
@@ -711,7 +736,7 @@ def run_reference(prog, solver_assertions, holes, on_case, max_cases=256):
         except Split:
             work.append(list(it.made) + [True]); work.append(list(it.made) + [False]); continue
         except RefError as e: outcome = ('error', merge_pieces(it.out), e)
-        except Unspecified as u: outcome = ('unspecified', str(u))
+        except Unspecified as u: outcome = ('unspecified', str(u)) if u.atomic_out is None else ('unspecified', str(u), merge_pieces(u.atomic_out))
         except Budget: outcome = ('unspecified', 'reference step budget')
         except RecursionError: outcome = ('unspecified', 'reference recursion')
         on_case(outcome, s, it)
@@ -725,5 +750,5 @@ def run_concrete(src, holes=None):
     try:
         it.run(prog); return ('ok', b''.join(p for p in merge_pieces(it.out)), None)
     except RefError as e: return ('error', b''.join(merge_pieces(it.out)), e)
-    except Unspecified as u: return ('unspecified', b'', str(u))
-    except (Budget, RecursionError): return ('unspecified', b'', 'budget')
+    except Unspecified as u: return ('unspecified', b'', str(u), None if u.atomic_out is None else b''.join(merge_pieces(u.atomic_out)))
+    except (Budget, RecursionError): return ('unspecified', b'', 'budget', None)
